@@ -4,7 +4,7 @@
    `the_cfg` instantiates the protocol model on the constants and structural facts regenerated
    from /repo (SrcFacts): retry bound, header re-check adjacent to the stacktop/owner reads,
    slot re-check adjacent to every slot read, no call between pointer capture and header re-check. *)
-Require Import Base M_Snapshot M_ThreadLife P_Snapshot.
+Require Import Base M_Snapshot M_ThreadLife M_Snapshot310 P_Snapshot.
 From SS.gen Require Import SrcFacts.
 
 (* For ALL schedules (env: attempt -> switch point -> move), ALL target behaviours that respect the
@@ -24,6 +24,21 @@ Theorem C07_snapshot_consistent_or_rejected : forall t ssize rl d env garb w,
   end.
 Proof. exact C07_consistent_inst. Qed.
 Print Assumptions C07_snapshot_consistent_or_rejected.
+
+(* EXACT WHEN BLOCKED: for a target that never moves (all switch points Stay), for ALL positions and
+   stacks satisfying the environment assumptions: the first attempt is accepted (0 retries, exactly
+   len reads) and the snapshot is the target's value stack -- the whole stack (depth(L) slots) if the
+   frame is suspended in a call (stacktop saved), its prefix at the enclosing handler's depth if the
+   frame is executing (stacktop -1). Example of the hypothesis: P_Snapshot.ex_blocked_hyp. *)
+Theorem C07_blocked_exact : forall t ssize rl d garb s,
+  wf_state (the_cfg t ssize rl) d s ->
+  let len := match top s with None => handler_depth t (lasti s) | Some n => n end in
+  exists g, run (the_cfg t ssize rl) quiet garb (mkW s OnThread)
+              = (OOk (lasti s) (firstn len (slots s)), g, mkW s OnThread)
+            /\ nretry g = 0 /\ length (reads g) = len
+            /\ (top s <> None -> firstn len (slots s) = slots s /\ len = d (lasti s)).
+Proof. exact C07_blocked_inst. Qed.
+Print Assumptions C07_blocked_exact.
 
 (* every raw slot read of the whole run (rejected attempts included) is live, in bounds and taken
    at lasti_before; no header read goes through a dangling pointer (finding F15) *)
@@ -91,3 +106,18 @@ Theorem C07_recheck_needed :
   /\ fst (unwrap_thread (mkL NotStarted 0 []) [EStart 7] [EFinish; OStart 1 7 0] []) = REmpty.
 Proof. exact recheck_needed. Qed.
 Print Assumptions C07_recheck_needed.
+
+(* CPython 3.8-3.10 (_lowlevel_cpython_310.py, no retry protocol; descriptive model M_Snapshot310):
+   every raw PyObject* dereference is of a word below stack_validity_limit (the highest level of an
+   active finally/with block) of an executing frame -- hence, if no active block was set up above the
+   current stack depth, a live slot; a suspended frame is never dereferenced raw; word reads stay
+   inside the co_stacksize area.  Example of the hypothesis: P_Snapshot.ex_py310. *)
+Theorem C07_py310_reads_below_limit : forall f vs bl rds,
+  inspect310 f = Some (vs, bl, rds) ->
+  Forall (fun r => match r with
+                   | RWord i => i < length (f_mem f)
+                   | RDeref i a => f_running f = true /\ i < validity_limit (f_blocks f) /\ a <> 0 /\
+                                   ((forall b, In b (f_blocks f) -> b_level b <= f_depth f) -> i < f_depth f)
+                   end) rds.
+Proof. exact py310_reads_below_limit. Qed.
+Print Assumptions C07_py310_reads_below_limit.
